@@ -353,6 +353,7 @@ class JordanCurve:
         float(yscale)
         for vertex in self.vertices:
             vertex.scale(xscale, yscale)
+        self.__lenght = None  # The lenght changes with the scale
         return self
 
     def rotate(self, angle: float, degrees: bool = False) -> JordanCurve:
